@@ -697,6 +697,20 @@ def rewrite_body(rf: RepoFile, it: Item, d: FnDirective, rules: dict, info: FnIn
         for da in info.dasserts:
             if rf.line_of(base + lo) <= da['line'] < rf.line_of(base + hi) and not da['dropped']:
                 da['dropped'] = 'inside R8 cut region'
+    # an R6 substitution that falls INSIDE a debug_assert macro (rewritten as a whole by R3) is applied to the
+    # R3 replacement text instead of as a separate edit
+    r3_edits = [e for e in edits if e.new.startswith('{ let verif_c: bool = ')]
+    absorbed = set()
+    for a, b, tl, many in d.subst:
+        for e in list(edits):
+            if e.new.startswith(b) and (e.start, e.end) in subst_ranges and text[e.start:e.end] == a:
+                host = next((r for r in r3_edits if r.start <= e.start and e.end <= r.end), None)
+                if host is not None:
+                    host.new = host.new.replace(a, b)
+                    absorbed.add((e.start, e.end))
+    if absorbed:
+        edits = [e for e in edits if (e.start, e.end) not in absorbed]
+        subst_ranges = [r for r in subst_ranges if r not in absorbed]
     # an R6 substitution / R8 cut wins over automatic rewrites (R2/R3/R5) that fall inside the replaced text
     edits = [e for e in edits if (e.start, e.end) in subst_ranges or
              not any(lo <= e.start and e.end <= hi for lo, hi in subst_ranges)]
